@@ -729,3 +729,6 @@ def run(ctx):
     # the length of an unconstrained INTEGER is a function of the value, not of its magnitude - per branch (shared with C02)
     from .c02 import r3 as minimal_twos_complement
     minimal_twos_complement(ctx, rule="C01.R9")
+    # writer and reader of every PER primitive split at the same boundaries (shared with C10)
+    from .c10 import r1 as primitive_boundaries
+    primitive_boundaries(ctx, rule="C01.R10")
